@@ -92,6 +92,14 @@ namespace fastscapelib
 
             for (size_type idx : graph_impl.base_levels())
             {
+                // masked nodes are not included in the flow graph, even when
+                // they are listed as base levels (e.g., fixed value grid
+                // boundary nodes covered by the mask)
+                if (graph_impl.is_masked(idx))
+                {
+                    continue;
+                }
+
                 open.emplace(pflood_node<FG, elev_t>(idx, elevation_flat(idx)));
                 closed(idx) = true;
             }
